@@ -182,12 +182,15 @@ class P:
                     self.eat("op", ")")
                     e = ("var", e[1] + "_" + m)          # observation of a container: items.len() -> items_len
                     continue
-                if m not in ("min", "max"):
+                SAT = {"saturating_mul": "*", "saturating_add": "+", "saturating_sub": "-"}
+                if m not in ("min", "max") and m not in SAT:
                     raise Unsupported("method " + m)
                 self.eat("op", "(")
                 a = self.expr()
                 self.eat("op", ")")
-                e = ("call", m, [e, a])
+                # saturating arithmetic: exact on Nat below the type's maximum (subtraction saturates at 0 like Nat's); the
+                # clamp at the maximum is not modelled (lengths and sizes are far below 2^64)
+                e = ("bin", SAT[m], e, a) if m in SAT else ("call", m, [e, a])
             elif self.at("as"):
                 self.eat()
                 ty = self.eat("id")[1]
@@ -457,6 +460,34 @@ def subst(e, name, repl):
         return repl if e[1] == name else e
     return tuple(subst(x, name, repl) if isinstance(x, tuple) else
                  ([subst(y, name, repl) for y in x] if isinstance(x, list) else x) for x in e)
+
+
+def vec_len_expr(body, name):
+    """the length expression of `let [mut] name[: T] = vec![<fill>; <len>];` in `body`"""
+    m = re.search(r"\blet\s+(?:mut\s+)?" + re.escape(name) + r"(?:\s*:\s*[^=;]+)?\s*=\s*vec!\[[^;\]]+;\s*([^\]]+)\]\s*;", body)
+    if not m:
+        raise Unsupported(f"let {name} = vec![…; …] not found")
+    return parse_expr(m.group(1))
+
+
+def inline_lets(e, body, params, depth=6, consts=None):
+    """free variables of `e` that are not parameters are replaced by the expression of their `let` in `body`, or of
+    their `const` in the file text `consts` (repeatedly)"""
+    for _ in range(depth):
+        extra = sorted(free_vars(e) - set(params))
+        if not extra:
+            return e
+        for v in extra:
+            try:
+                e = subst(e, v, let_expr(body, v))
+            except Unsupported:
+                if consts is None:
+                    raise
+                m = re.search(r"\bconst\s+" + re.escape(v) + r"\s*:\s*[^=;]+=\s*([^;]+);", consts)
+                if not m:
+                    raise
+                e = subst(e, v, parse_expr(m.group(1)))
+    raise Unsupported("let bindings do not resolve to the parameters: " + str(sorted(free_vars(e) - set(params))))
 
 
 def field_expr(body, field, nth=0):
